@@ -55,6 +55,10 @@ pub struct Case {
     /// connection to each cluster must be admitted again
     #[serde(default)]
     pub per_ip: bool,
+    /// start of each session, in ms after the common start (empty: all together). Idle sessions whose
+    /// deadlines fall one or two revolutions of the timer wheel apart share a wheel slot.
+    #[serde(default)]
+    pub stagger_ms: Vec<u64>,
 }
 
 fn client_for(outcome: &str, i: usize, http: std::net::SocketAddr, https: std::net::SocketAddr, tcp: std::net::SocketAddr, tcp2: std::net::SocketAddr) -> Peer {
@@ -73,6 +77,7 @@ fn client_for(outcome: &str, i: usize, http: std::net::SocketAddr, https: std::n
         "keepalive-idle-until-timeout" => vec![Step::Connect { to: http, from: None }, Step::Send { bytes: get("/size/100", "a.io"), splits: vec![] }, Step::ExpectH1 { count: 1, responses: true }, Step::ExpectEof, Step::Done],
         "client-reset-mid-request" => vec![Step::Connect { to: http, from: None }, Step::Send { bytes: b"POST /size/5 HTTP/1.1\r\nHost: a.io\r\nContent-Length: 100\r\n\r\nabc".to_vec(), splits: vec![] }, Step::Wait { ms: 5 }, Step::Reset, Step::Done],
         "client-close-mid-response" => vec![Step::Connect { to: http, from: None }, Step::Send { bytes: get("/size/300000", "a.io"), splits: vec![] }, Step::ExpectBytes(1000), Step::Close, Step::Done],
+        "silent" => vec![Step::Connect { to: http, from: None }, Step::ExpectEof, Step::Done],
         "client-stalls-in-head" => vec![Step::Connect { to: http, from: None }, Step::Send { bytes: b"GET /size/5 HTTP/1.1\r\nHo".to_vec(), splits: vec![] }, Step::ExpectEof, Step::Done],
         "no-route-404" => vec![Step::Connect { to: http, from: None }, Step::Send { bytes: get("/", "nowhere.io"), splits: vec![] }, Step::ExpectH1 { count: 1, responses: true }, Step::Close, Step::Done],
         "backend-refuses-503" => vec![Step::Connect { to: http, from: None }, Step::Send { bytes: get("/", "dead.io"), splits: vec![] }, Step::ExpectH1 { count: 1, responses: true }, Step::Close, Step::Done],
@@ -214,7 +219,7 @@ pub fn run_case(case: &Case, prefix: Vec<u32>, profile: ChoiceProfile) -> Run {
         } else {
             let mut p = client_for(o, i, http, https, tcp, tcp2);
             // leave room for the warm-up and the baseline metrics query
-            p.script.insert(0, Step::Wait { ms: 500 });
+            p.script.insert(0, Step::Wait { ms: 500 + case.stagger_ms.get(i).copied().unwrap_or(0) });
             peers.push(p);
         }
     }
@@ -271,7 +276,7 @@ pub fn run_case(case: &Case, prefix: Vec<u32>, profile: ChoiceProfile) -> Run {
         crate::common::machinery_error(&format!("worker creation failed: {e}"));
     }
     let mut violations: Vec<(String, String)> = vec![];
-    let id = if case.storm > 0 { format!("storm-{}", case.storm) } else { format!("{}{}", case.outcomes.join("+"), if case.per_ip { "|per-ip" } else { "" }) };
+    let id = if case.storm > 0 { format!("storm-{}", case.storm) } else { format!("{}{}{}", case.outcomes.join("+"), if case.per_ip { "|per-ip" } else { "" }, if case.stagger_ms.is_empty() { String::new() } else { format!("|starts {:?}", case.stagger_ms) }) };
     let mut flag = |k: String, d: String| violations.push((format!("C16|sessions|{k}"), d));
     if let Some(p) = &exec.subject_panic {
         flag(format!("worker-panic|{id}"), format!("worker panicked: {p}"));
@@ -304,6 +309,23 @@ pub fn run_case(case: &Case, prefix: Vec<u32>, profile: ChoiceProfile) -> Run {
     for p in sc.peers.iter().skip(2) {
         if !p.reached_goal() {
             flag(format!("session-not-reclaimed:{}", p.name.split('#').next().unwrap_or("")), format!("client {} is still waiting at step {} 150 virtual seconds later (eof={} reset={})", p.name, p.pc, p.conn.eof, p.conn.reset));
+        }
+    }
+    // ---- an idle session is reclaimed when its own timeout says so, whatever other timers did meanwhile
+    if !case.stagger_ms.is_empty() {
+        for (i, o) in case.outcomes.iter().enumerate() {
+            let allowed_ms: u64 = match o.as_str() {
+                "silent" | "client-stalls-in-head" => 10_000,   // request_timeout
+                "keepalive-idle-until-timeout" => 60_000,       // front_timeout
+                _ => continue,
+            };
+            let p = &sc.peers[2 + i];
+            let started = 500 + case.stagger_ms.get(i).copied().unwrap_or(0);
+            match p.conn.eof_ns.map(|t| (t - crate::interpose::VIRTUAL_EPOCH_NS) / 1_000_000) {
+                Some(closed) if closed <= started + allowed_ms + 1_500 => {}
+                Some(closed) => flag(format!("idle-session-reclaimed-late:{o}|{id}"), format!("client {} went idle {started} ms into the run with a {allowed_ms} ms timeout and was closed at {closed} ms", p.name)),
+                None => flag(format!("idle-session-never-reclaimed:{o}|{id}"), format!("client {} went idle {started} ms into the run with a {allowed_ms} ms timeout and was never closed", p.name)),
+            }
         }
     }
     if case.per_ip {
@@ -344,22 +366,33 @@ pub fn run_case(case: &Case, prefix: Vec<u32>, profile: ChoiceProfile) -> Run {
 pub fn cases(tier: Tier) -> Vec<Case> {
     let mut v = vec![];
     for o in OUTCOMES {
-        v.push(Case { outcomes: vec![o.into()], storm: 0, per_ip: false });
+        v.push(Case { outcomes: vec![o.into()], storm: 0, per_ip: false, stagger_ms: vec![] });
     }
     let pairs: Vec<(usize, usize)> = (0..OUTCOMES.len()).flat_map(|i| (i..OUTCOMES.len()).map(move |j| (i, j))).collect();
     for (i, j) in pairs {
         if tier == Tier::Quick && (i + j) % 3 != 0 {
             continue;
         }
-        v.push(Case { outcomes: vec![OUTCOMES[i].into(), OUTCOMES[j].into()], storm: 0, per_ip: false });
+        v.push(Case { outcomes: vec![OUTCOMES[i].into(), OUTCOMES[j].into()], storm: 0, per_ip: false, stagger_ms: vec![] });
     }
-    v.push(Case { outcomes: OUTCOMES.iter().map(|s| s.to_string()).collect(), storm: 0, per_ip: false });
+    v.push(Case { outcomes: OUTCOMES.iter().map(|s| s.to_string()).collect(), storm: 0, per_ip: false, stagger_ms: vec![] });
     for s in [1usize, 3] {
-        v.push(Case { outcomes: vec![], storm: s, per_ip: false });
+        v.push(Case { outcomes: vec![], storm: s, per_ip: false, stagger_ms: vec![] });
+    }
+    // idle sessions whose deadlines share a slot of the timer wheel (one revolution = 25.6 s), and a control pair that does not
+    for (outcomes, starts) in [
+        (vec!["silent", "silent"], vec![0u64, 25_600]),
+        (vec!["silent", "silent", "silent"], vec![0, 25_600, 51_200]),
+        (vec!["silent", "silent"], vec![0, 12_800]),
+        (vec!["keepalive-idle-until-timeout", "keepalive-idle-until-timeout"], vec![0, 25_600]),
+        (vec!["keepalive-idle-until-timeout", "silent", "client-stalls-in-head"], vec![0, 24_400, 50_000]),
+        (vec!["client-stalls-in-head", "silent"], vec![25_600, 0]),
+    ] {
+        v.push(Case { outcomes: outcomes.into_iter().map(String::from).collect(), storm: 0, per_ip: false, stagger_ms: starts });
     }
     // per-address limits: each outcome twice side by side plus an HTTP exchange that shuffles session slots
     for o in OUTCOMES {
-        v.push(Case { outcomes: vec![o.into(), o.into(), "ok".into(), o.into()], storm: 0, per_ip: true });
+        v.push(Case { outcomes: vec![o.into(), o.into(), "ok".into(), o.into()], storm: 0, per_ip: true, stagger_ms: vec![] });
     }
     v
 }
@@ -420,7 +453,8 @@ pub fn replay_case(ctx: &Ctx, case: &Value) -> Coverage {
 pub fn debug(args: &crate::common::Args) {
     let outcomes: Vec<String> = args.extra.get("outcomes").map(|s| s.split(',').map(|x| x.to_owned()).collect()).unwrap_or_default();
     let storm: usize = args.extra.get("storm").and_then(|s| s.parse().ok()).unwrap_or(0);
-    let c = Case { outcomes, storm, per_ip: args.extra.contains_key("perip") };
+    let stagger_ms: Vec<u64> = args.extra.get("starts").map(|s| s.split(',').filter_map(|x| x.parse().ok()).collect()).unwrap_or_default();
+    let c = Case { outcomes, storm, per_ip: args.extra.contains_key("perip"), stagger_ms };
     println!("{c:?}");
     let r = worker::isolated(move || run_case(&c, vec![], profile())).unwrap();
     println!("obs={}", r.observation);
